@@ -91,8 +91,14 @@ def gen_component(rng, npoints, fmt_len, uni):
     points = [gen_name(rng, None if uni else "ascii") for _ in range(npoints)]
     nl = rng.randrange(0, 4)
     limbs = [[rng.randrange(0, max(1, npoints)), rng.randrange(0, max(1, npoints))] for _ in range(nl)]
+    if nl and rng.random() < 0.15:
+        # the format stores limb ends as unsigned 16-bit words and the writer does not compare them with the number of points:
+        # every word value must survive, in particular those with the top bit set
+        limbs[rng.randrange(nl)][rng.randrange(2)] = rng.choice([32767, 32768, 65535, 255, 256, rng.randrange(0, 65536)])
     nc = nl if rng.random() < 0.8 else rng.randrange(0, 4)
     colors = [[rng.randrange(0, 256) for _ in range(3)] for _ in range(nc)]
+    if nc and rng.random() < 0.15:
+        colors[rng.randrange(nc)][rng.randrange(3)] = rng.choice([256, 32767, 32768, 65535, rng.randrange(0, 65536)])
     return {"name": name, "format": fmt, "points": points, "limbs": limbs, "colors": colors}
 
 
@@ -112,6 +118,11 @@ def gen_pose_case(rng, max_pts=5, max_frames=4, max_people=3, edge=0.25, dims_ch
     fps = b64(rng.choice([30.0, 29.97, 25.0, 0.0, 1e-3, 24, 59.94, 1.5]))
     case = {"dims": dims, "comps": comps, "fps": fps, "shape": [F, P, T, D], "cshape": [F, P, T], "dtype": rng.choice(["f32", "f32", "f64", "f64", ">f4", ">f8"]),
             "edge": "none"}
+    # how the caller holds limbs / colours / dimensions: Python ints in tuples, or NumPy integer arrays / scalars (what
+    # arithmetic on a header that was read leaves behind).  Same integers either way: accepted or refused alike.
+    case["hdrc"] = rng.choice(["tuple", "tuple", "tuple", "list", "np_int64", "np_int64", "np_int32", "np_uint16", "np_scalar"])
+    # how the body array is handed to the constructor
+    case["maskmode"] = rng.choice(["nomask", "nomask", "plain", "partial", "full", "noncontig"])
     if rng.random() < edge:
         e = rng.choice(["dim_neg", "dim_big", "limb_big", "limb_neg", "color_big", "surrogate", "long_name", "fps_inf", "fps_nan", "fps_big",
                         "fps_edge", "more_points", "fewer_points", "conf_shape", "no_comps", "empty_format", "dims_mismatch", "rank3",
@@ -124,7 +135,7 @@ def gen_pose_case(rng, max_pts=5, max_frames=4, max_people=3, edge=0.25, dims_ch
         elif e in ("limb_big", "limb_neg", "color_big"):
             c = comps[rng.randrange(ncomp)]
             if e == "color_big":
-                c["colors"].append([0, 65536, 3])
+                c["colors"].append(rng.choice([[0, 65536, 3], [0, 65536, 3], [70125, 2, 3], [1, -1, 3], [1, 2, -32768]]))
             else:
                 c["limbs"].append([0, 65536] if e == "limb_big" else [-1, 0])
         elif e == "surrogate":
@@ -211,13 +222,34 @@ def result_of_tree(t, f):
 
 # ---------------------------------------------------------------------------------------------
 # implementation side
+def _hdr_numbers(case):
+    """limbs / colours / dimensions of the case in the container the case asks for"""
+    mode = case.get("hdrc", "tuple")
+    def seq(rows, width):
+        if mode == "tuple":
+            return [tuple(r) for r in rows]
+        if mode == "list":
+            return [list(r) for r in rows]
+        if mode == "np_scalar":
+            return [tuple(np.int64(x) for x in r) for r in rows]
+        dt = {"np_int64": np.int64, "np_int32": np.int32, "np_uint16": np.uint16}[mode]
+        if mode == "np_uint16" and any((x < 0 or x > 65535) for r in rows for x in r):
+            dt = np.int64                                   # not representable in the narrow container: keep the integers
+        return np.array([list(r) for r in rows], dtype=dt).reshape(-1, width)
+    return seq, mode
+
+
 def build_pose(case):
     from pose_format import Pose
     from pose_format.numpy import NumPyPoseBody
     from pose_format.pose_header import PoseHeader, PoseHeaderComponent, PoseHeaderDimensions
-    comps = [PoseHeaderComponent(from_cps(c["name"]), [from_cps(p) for p in c["points"]], [tuple(l) for l in c["limbs"]],
-                                 [tuple(k) for k in c["colors"]], from_cps(c["format"])) for c in case["comps"]]
-    header = PoseHeader(0.2, PoseHeaderDimensions(*case["dims"]), comps)
+    seq, mode = _hdr_numbers(case)
+    comps = [PoseHeaderComponent(from_cps(c["name"]), [from_cps(p) for p in c["points"]], seq(c["limbs"], 2),
+                                 seq(c["colors"], 3), from_cps(c["format"])) for c in case["comps"]]
+    dims = list(case["dims"])
+    if mode.startswith("np_") and all(isinstance(d, int) and -2 ** 31 <= d < 2 ** 31 for d in dims):
+        dims = [np.int64(d) for d in dims]
+    header = PoseHeader(0.2, PoseHeaderDimensions(*dims), comps)
     data = np.array(case["data"], dtype=np.uint64).view(np.float64).reshape(case["shape"])
     conf = np.array(case["conf"], dtype=np.uint64).view(np.float64).reshape(case["cshape"])
     if case.get("dtype") == "f32":
@@ -227,9 +259,26 @@ def build_pose(case):
         # same values, big-endian storage (a legal ndarray dtype): the writer must still emit little-endian float32
         data = data.astype(np.dtype(case["dtype"]))
         conf = conf.astype(np.dtype(case["dtype"]))
-    # a masked array is handed over so that construction itself never rejects a shape combination;
-    # the mask is irrelevant for writing (the writer emits data.data)
-    body = NumPyPoseBody(from_b64(case["fps"]), ma.masked_array(data), conf)
+    # The body array reaches the constructor in one of the forms a caller may hold it in.  A masked array without a mask is
+    # the default (construction itself then never rejects a shape combination); the mask is irrelevant for writing (the writer
+    # emits data.data) and the constructor must OR `confidence == 0` into whatever mask it is given.
+    mm = case.get("maskmode", "nomask")
+    coherent = len(case["shape"]) == 4 and list(case["cshape"]) == list(case["shape"][:3])
+    if mm == "plain" and coherent:
+        arr = data
+    elif mm in ("partial", "full") and coherent:
+        zero = np.repeat((conf == 0)[..., None], case["shape"][3], axis=-1) if case["shape"][3] else np.zeros(case["shape"], bool)
+        if mm == "partial":
+            keep = np.random.RandomState(len(case["data"]) * 7919 + len(case["conf"])).random_sample(zero.shape) < 0.5
+            zero = zero & keep
+        arr = ma.masked_array(data, mask=zero)
+    elif mm == "noncontig" and coherent and data.ndim == 4:
+        # same values in a non-contiguous (transposed-storage) array
+        arr = ma.masked_array(np.ascontiguousarray(data.transpose(3, 2, 1, 0)).transpose(3, 2, 1, 0))
+        conf = np.ascontiguousarray(conf.transpose(2, 1, 0)).transpose(2, 1, 0)
+    else:
+        arr = ma.masked_array(data)
+    body = NumPyPoseBody(from_b64(case["fps"]), arr, conf)
     return Pose(header, body)
 
 
@@ -315,6 +364,22 @@ def set_memo(state, other_bytes=None, same_bytes=None):
             pass
     elif state == "other" and other_bytes is not None:
         _scribble(Pose.read(bytes(other_bytes)))
+    elif state == "twin" and same_bytes is not None:
+        # a file whose header differs from this one in the version word only (the body is then in another layout and
+        # may or may not parse): its header reaches the memo either way
+        try:
+            _scribble(Pose.read(twin_bytes(same_bytes)))
+        except Exception:
+            pass
+
+
+V01_WORD = struct.pack("<f", 0.1)
+V02_WORD = struct.pack("<f", 0.2)
+
+
+def twin_bytes(file_bytes):
+    b = bytes(file_bytes)
+    return (V01_WORD if b[:4] != V01_WORD else V02_WORD) + b[4:]
 
 
 def impl_read(data, kind="bytes", args=None, counting=False):
